@@ -11,12 +11,17 @@ package main
 import (
 	"encoding/binary"
 	"fmt"
+	"strings"
+
+	"github.com/nspcc-dev/dbft"
 
 	"github.com/nspcc-dev/neo-go/pkg/core/transaction"
 	"github.com/nspcc-dev/neo-go/pkg/io"
 	npayload "github.com/nspcc-dev/neo-go/pkg/network/payload"
 	"github.com/nspcc-dev/neo-go/pkg/util"
 	"github.com/nspcc-dev/neo-go/pkg/vm/emit"
+
+	"verif/harness/internal/hx"
 )
 
 type forgeSpec struct {
@@ -167,5 +172,126 @@ func (r *run) probe(to int, kind string) {
 		if answered {
 			r.fail("probe-answered", "backup %d sent a PrepareResponse for a PrepareRequest that violates the rule %q", to, kind)
 		}
+	}
+}
+
+// probeRecovery hands validator `to` a RecoveryMessage correctly signed by another validator (the one
+// faulty validator of the case) whose compact ChangeView / PrepareResponse / Commit entry names a
+// validator index outside the list: kind = cv|ps|cm "-" n|255 (the first index past the list; the
+// largest byte). The wire decoder does not look at the index (recovery_message.go DecodeBinary), the
+// service's front door checks only the OUTER sender, so the entry reaches recoveryMessage.GetChangeViews
+// / GetPrepareResponses / GetCommits inside dBFT's onRecoveryMessage, which must skip it (e644244) —
+// an index expression there panics in the service's only goroutine and takes the node down.
+//
+// A panic in that goroutine cannot be caught from here, so the very accessors dBFT is about to call
+// are called first on the decoded payload with the same validator list, under recover: a panic is the
+// oracle failure (and the payload is then NOT given to the service); otherwise the payload goes through
+// the extensible pool and OnPayload like any other, the machine model is told what the fixed code sees
+// (a RecoveryMessage with no usable entry) and is compared as usual, and the script goes on with the
+// synchronous schedule: the round must complete with the forger still counted among the <= f faulty.
+func (r *run) probeRecovery(to int, kind string) {
+	nd := r.cl.nodes[to]
+	db := dbftOf(nd.srv)
+	if db == nil {
+		r.machinery = fmt.Errorf("probe: dBFT context not reachable")
+		return
+	}
+	n := len(r.cl.pubs)
+	from := (to + 1) % n
+	h, v := db.Context.BlockIndex, db.Context.ViewNumber
+	parts := strings.SplitN(kind, "-", 2)
+	if len(parts) != 2 {
+		r.machinery = fmt.Errorf("probe: unknown recovery kind %q", kind)
+		return
+	}
+	idx := byte(n)
+	if parts[1] == "255" {
+		idx = 255
+	}
+	view := v
+	if parts[0] == "cv" {
+		view = v + 1 // ChangeViews are read from a message of a higher view only (dbft.go onRecoveryMessage)
+	}
+	r.probeNonce++
+	var ph util.Uint256
+	binary.LittleEndian.PutUint32(ph[:], 0x52000000+uint32(r.probeNonce))
+	sig := make([]byte, 64)
+	w := io.NewBufBinWriter()
+	w.WriteB(0x41)
+	w.WriteU32LE(h)
+	w.WriteB(byte(from))
+	w.WriteB(view)
+	if parts[0] == "cv" { // changeViewCompact: index, original view, timestamp, invocation script
+		w.WriteVarUint(1)
+		w.WriteB(idx)
+		w.WriteB(v)
+		w.WriteU64LE(1)
+		w.WriteVarBytes(append([]byte{0x0c, 0x40}, sig...))
+	} else {
+		w.WriteVarUint(0)
+	}
+	w.WriteBool(false) // no PrepareRequest on board: a preparation hash instead
+	w.WriteVarUint(util.Uint256Size)
+	w.WriteBytes(ph[:])
+	if parts[0] == "ps" { // preparationCompact: index, invocation script
+		w.WriteVarUint(1)
+		w.WriteB(idx)
+		w.WriteVarBytes(append([]byte{0x0c, 0x40}, sig...))
+	} else {
+		w.WriteVarUint(0)
+	}
+	if parts[0] == "cm" { // commitCompact: view, index, signature, invocation script
+		w.WriteVarUint(1)
+		w.WriteB(view)
+		w.WriteB(idx)
+		w.WriteBytes(sig)
+		w.WriteVarBytes(append([]byte{0x0c, 0x40}, sig...))
+	} else {
+		w.WriteVarUint(0)
+	}
+	priv := r.cl.nodes[from].priv
+	e := &npayload.Extensible{
+		Category:      npayload.ConsensusCategory,
+		ValidBlockEnd: h,
+		Sender:        priv.PublicKey().GetScriptHash(),
+		Data:          w.Bytes(),
+	}
+	buf := io.NewBufBinWriter()
+	emit.Bytes(buf.BinWriter, priv.SignHashable(magic, e))
+	e.Witness = transaction.Witness{InvocationScript: buf.Bytes(), VerificationScript: priv.PublicKey().GetVerificationScript()}
+	p, raw, err := r.dec.payload(e)
+	if err != nil || p.Type() != dbft.RecoveryMessageType {
+		r.machinery = fmt.Errorf("probe: forged recovery message does not decode: %v", err)
+		return
+	}
+	r.o.Count("probe:recovery-" + kind)
+	pubs := make([]dbft.PublicKey, n)
+	for i := range pubs {
+		pubs[i] = r.cl.pubs[i]
+	}
+	// what dBFT's onRecoveryMessage is about to call, with the list it calls them with
+	usable := -1
+	res := hx.Safe(func() string {
+		rm := p.GetRecoveryMessage()
+		usable = len(rm.GetChangeViews(p, pubs)) + len(rm.GetPrepareResponses(p, pubs)) + len(rm.GetCommits(p, pubs))
+		return "ok"
+	})
+	if res != "ok" {
+		r.fail("recovery-index-panic", "a RecoveryMessage signed by validator %d for height %d view %d whose compact %s entry names validator %d of %d makes recoveryMessage.Get* panic (index out of range): node %d's consensus goroutine would die on it; payload %s",
+			from, h, view, parts[0], idx, n, to, hx.Hex(raw))
+		return
+	}
+	if usable != 0 {
+		r.fail("recovery-index-used", "a compact %s entry naming validator %d of %d is turned into a payload", parts[0], idx, n)
+		return
+	}
+	m := &msg{from: from, typ: p.Type(), h: h, v: view, raw: raw, hash: e.Hash(),
+		desc: fmt.Sprintf("RM %d %d %d 0 # 0 R- H%s 0 0", from, h, view, r.dec.nm.p(ph))}
+	r.net = append(r.net, flight{m, to})
+	r.forged = true
+	r.deliver(len(r.net)-1, true, false)
+	r.forged = false
+	if got := dbftOf(nd.srv); got == nil || got.Context.BlockIndex != h {
+		r.fail("recovery-index-effect", "node %d left height %d on a RecoveryMessage without a usable entry", to, h)
 	}
 }
